@@ -413,7 +413,7 @@ def unsolicited(f):
 
 def fuzz(ctx, stats):
     quick = ctx.tier == "quick"
-    n_groups = 16 if quick else 160
+    n_groups = 13 if quick else 160       # 13 x (54 + 2 windows of ~9) = as many generated inputs per configuration as the 16 x 60 of earlier rounds
     glen = 54 if quick else 80         # + two slow-consumer windows of ~9 inputs in every group
     max_restarts = 12 if quick else 60
     total_eval = 0
@@ -578,8 +578,16 @@ def run(ctx):
         ctx.violation("corr", "harness-build-broken", "package-main driver no longer builds against the repository: " + out[-1500:],
                       {"correspondence": "build of harness/overlay against server/"})
         ctx.finish()
-    fuzz(ctx, stats)
+    x_replay = bool(ctx.replay) and json.load(open(ctx.replay)).get("replay", {}).get("part") == "c13x"
+    if not x_replay:
+        fuzz(ctx, stats)
     t_fuzz = time.time() - t0
+    if x_replay or not ctx.replay:
+        # slow consumers / request slot and held topic load: structured driver + models Inflight.v, HeldLoad.v
+        from props import c13x
+        t1 = time.time()
+        c13x.run_part(ctx, stats)
+        stats["c13x"]["wall_s"] = round(time.time() - t1, 1)
     if not ctx.replay:
         from props import c13drafty
         c13drafty.run(ctx, stats, have_model=have_coq)
@@ -604,6 +612,7 @@ def run(ctx):
         "server_crashes": stats["crashes"][:20], "configs_aborted_after_restart_cap": stats["aborted_configs"],
         "inputs_skipped_because_their_shape_already_crashed": stats["skipped_after_crash"],
         "drafty_fuzz": stats.get("drafty"),
+        "slow_consumers_and_held_load": stats.get("c13x"),
         "model_correspondence": stats.get("model"),
         "open_statements": [
             "c13_no_panic_statement (code as it is): REFUTED by the model and by the implementation (c13_no_panic_refuted, c13_witnesses); the full theorem c13_no_panic holds for the code after findings/C13_*.diff only",
